@@ -133,9 +133,17 @@ func appendNote(notes []string, s string) []string {
 }
 
 func instantiateSet(files []*descriptorpb.FileDescriptorProto, protoPkg, goImport, goPkg string, rename func(string) string) []*descriptorpb.FileDescriptorProto {
+	// custom option numbers must differ between the instances that are linked into one program
+	base := int32(50000)
+	switch {
+	case strings.HasSuffix(protoPkg, ".hybrid"):
+		base = 51000
+	case strings.HasSuffix(protoPkg, ".opaque"):
+		base = 52000
+	}
 	var out []*descriptorpb.FileDescriptorProto
 	for _, f := range files {
-		out = append(out, instantiate(f, protoPkg, goImport, goPkg, rename))
+		out = append(out, instantiate(f, protoPkg, goImport, goPkg, rename, base))
 	}
 	return out
 }
@@ -191,7 +199,7 @@ var pinnedCases = []cmpCase{
 	{Msg: "zzpkg.PinA", Bytes: "0a040a021200"},                   // A.b.a.c = {}
 }
 
-var errLine = regexp.MustCompile(`(?m)^(internal/zz_verif_gen_[^:\s]+):(\d+):(\d+): (.*)$`)
+var errLine = regexp.MustCompile(`(?m)^\S*?(internal/zz_verif_gen_[^:\s]+):(\d+):(\d+): (.*)$`)
 
 // runBatch pushes one package through generation, formatting, compilation and the comparison program.
 func (e *env) runBatch(c *vh.Ctx, n int, files []*descriptorpb.FileDescriptorProto, cases []cmpCase, seed int64, perMsg int, tags string) {
@@ -510,11 +518,18 @@ func runC41(c *vh.Ctx) {
 	}
 	// replay: schemas (and encodings) of a replay file first
 	bn := 0
+	replayed := map[string]bool{}
 	for _, raw := range c.ReplayInputs() {
 		var si schemaInput
 		if json.Unmarshal(raw, &si) != nil || si.Kind != "c41-schema" {
 			continue
 		}
+		// one batch per distinct (schema, encoding)
+		rk := strings.Join(si.Files, "|") + "|" + si.Msg + "|" + si.Bytes
+		if replayed[rk] {
+			continue
+		}
+		replayed[rk] = true
 		var files []*descriptorpb.FileDescriptorProto
 		for _, h := range si.Files {
 			b, _ := hex.DecodeString(h)
